@@ -237,6 +237,8 @@ def raw_tok(f, A):
     """operator applications as written (no abbreviation expanded): the model builds the formula objects through the regenerated
     create_formula table (driver command thy)"""
     t = f[0]
+    if t == 'DEL':
+        return raw_dtok(f[1], A)
     if t == 'atom':
         return 'a %d' % A.id(f[1])
     if t in ('true', 'false', 'initial', 'final'):
@@ -261,6 +263,38 @@ def raw_tok(f, A):
     if t == 'finally':
         return 'o1 >> ' + raw_tok(f[1], A)
     raise ValueError(f)
+
+
+def raw_ptok(p, A):
+    t = p[0]
+    if t == 'skip':
+        return 'pt'
+    if t == 'patom':
+        return 'pa %d' % A.id(p[1])
+    if t == 'test':
+        g = p[1]
+        if g[0] == 'atom':
+            return 'pca %d' % A.id(g[1])
+        return 'pcc %d' % (1 if g[0] == 'true' else 0)
+    if t == 'choice':
+        return 'p2 + %s %s' % (raw_ptok(p[1], A), raw_ptok(p[2], A))
+    if t == 'seq':
+        return 'p2 ;; %s %s' % (raw_ptok(p[1], A), raw_ptok(p[2], A))
+    if t == 'star':
+        return 'p1 * ' + raw_ptok(p[1], A)
+    raise ValueError(p)
+
+
+def raw_dtok(d, A):
+    """&del formulas as written, for the driver command thy (paths through the regenerated create_path tables)"""
+    t = d[0]
+    if t == 'atom':
+        return 'a %d' % A.id(d[1])
+    if t in ('true', 'false'):
+        return 'kw ' + t
+    if t in ('dia', 'box'):
+        return 'del %s %s %s' % ('.>?' if t == 'dia' else '.>*', raw_ptok(d[1], A), raw_dtok(d[2], A))
+    raise ValueError(d)
 
 
 def path_tok(p, A):
